@@ -201,10 +201,13 @@ def check(F, R, tier):
     creation_registration(F, R)
     drop_rules(F, R)
     verify_cfg(F, R)
+    # the 'being created' lock of the static config / dynamic config storages (permission bits): same rules as C04.storages
+    from . import C04
+    C04.storages(F, R)
 
 
 LEVEL_TEXT = ("Decides on all CFG paths: ownership is released only after the last fallible step of create/open (no error exit afterwards), "
-              "node registration placement, removal of resources only under NoMoreOwners, LockIfLastIndex on the node registry, and - over the "
+              "the storages' init-permission discipline (created with INIT permissions, content written / initialised before the final permission), node registration placement, removal of resources only under NoMoreOwners, LockIfLastIndex on the node registry, and - over the "
               "four verify_service_configuration siblings - same-field comparisons and coverage of every StaticConfig field. "
               "Mutual exclusion of creators is the kernel's and is not decided.")
 LEVEL_NOTE = "Trusted: rustc MIR; FIELD_EXCEPTIONS table (one reason per row). Not decided: interleavings of create/open/drop."
